@@ -37,6 +37,13 @@ def run_engine_a(rep, pid, tier_, rng, fns, tags, n_quick=400, n_thorough=6000, 
     t0 = time.time()
     obligations, discharged, trusted, cmds = proof_side(rep, pid)
     n = n_quick if tier_ == "quick" else n_thorough
+    # structural cross-check of the model/code tie: which transliterated routines changed since the model was reconciled with them
+    import drift
+    moved = drift.changed()
+    core = {"_normalize", "_normalize1", "from_man_exp"}
+    relevant = [m for m in moved if m.split(":")[1] in core or any(m.split(":")[1].lstrip("_") in f or f in m.split(":")[1] for f in fns)]
+    if relevant:
+        n *= 3
     res = corr.run_correspondence(fns, n, rng, make=make, spec=spec)
     # classify
     dis_noinput = 0
@@ -70,6 +77,8 @@ def run_engine_a(rep, pid, tier_, rng, fns, tags, n_quick=400, n_thorough=6000, 
         "per_function": res["stats"], "disagreements": len(res["disagreements"]),
         "spec_failures": sum(1 for _, _, b in res["specfails"] if any(x[0] in tags for x in b)),
         "impl_seconds": res["impl_s"], "model_seconds": res["model_s"],
+        "model_source_drift": {"changed_since_reconciled": moved, "relevant_here": relevant, "case_budget_factor": 3 if relevant else 1,
+                               "note": "normalised-AST hashes of the transliterated Python routines vs harness/model_fingerprints.json; a change is reported, not an alarm"},
     }
     if extra:
         cov.update(extra(rep, tier_, rng) or {})
